@@ -1,6 +1,7 @@
 """C13 - constraint differences and violations are reported exactly for all bound kinds.
 
-Encoded: ConstraintInfo.create / __post_init__ / transform_from_optimizer and plan._utils._violates_constraint.
+Encoded: ConstraintInfo.create / __post_init__ / transform_from_optimizer and plan._utils._violates_constraint;
+EnsembleEvaluator.calculate (functions, functions+gradients) for the info it attaches to its results.
 Symbolic: variables, finite bound values, linear coefficients and bounds, non-linear values and bounds, tolerance.
 Enumerated: the finite/infinite pattern of every bound.
 """
@@ -185,6 +186,92 @@ class InfoCase(Case):
         return {k: getattr(i, k) for k in ("bound_violation", "linear_violation", "nonlinear_violation") if getattr(i, k) is not None}
 
 
+class EvaluatorInfoCase(Case):
+    """The constraint info the ensemble evaluator attaches to its function results (functions only, and
+    functions + gradients in one request): differences of the *ensemble* constraint values, one entry per constraint."""
+
+    family = "constraint-info/evaluator"
+
+    def __init__(self, cid, *, R=2, nkinds=("both",), mode="both"):
+        from . import ens
+        self.id, self.R, self.nkinds, self.mode = cid, R, tuple(nkinds), mode
+        self.N, self.C = 2, len(nkinds)
+        self.cfg0 = ens.ensemble_config(N=2, R=R, P=1, C=self.C, lower=-1.0, upper=1.0, x0=[0.25, -0.5])
+        self.design = np.array([[[1.0, 0.5]]] * R)
+
+    def describe(self):
+        return f"EnsembleEvaluator.calculate mode={self.mode} R={self.R} nonlinear={self.nkinds}"
+
+    def inputs(self, env):
+        R, C = self.R, self.C
+        w = env.reals("w", R, lo=0, hi=1)
+        env.assume(ssum(list(w)) == 1)
+        for r in range(R):
+            env.assume(w[r] > 0)
+        nlo, nhi = mk_bounds(env, "nb", self.nkinds)
+        g = env.reals("g", (R, C), lo=-BIG, hi=BIG)
+        f = env.reals("f", (R, 1), lo=-BIG, hi=BIG)
+        return dict(w=w, nlo=nlo, nhi=nhi, g=g, f=f)
+
+    def run(self, env, inp):
+        from ropt.ensemble_evaluator import EnsembleEvaluator
+        from ropt.evaluator import EvaluatorResult
+        from . import ens
+
+        obj = lambda seq: np.array(list(seq), dtype=object)  # noqa: E731
+        cfg = clone_config(self.cfg0)
+        inject(cfg.realizations, weights=env.arr(inp["w"], writeable=False))
+        inject(cfg.nonlinear_constraints, lower_bounds=env.arr(obj(inp["nlo"]), False), upper_bounds=env.arr(obj(inp["nhi"]), False))
+        pm = ens.stub_manager()
+        ens.set_samples(lambda s_: env.const(self.design))
+
+        def evaluator(variables, context):
+            n = variables.shape[0]
+            fo = np.empty((n, 1), dtype=object)
+            go = np.empty((n, self.C), dtype=object)
+            for i in range(n):
+                r = int(context.realizations[i])
+                pert = context.perturbations is not None and int(context.perturbations[i]) >= 0
+                fo[i, 0] = inp["f"][r, 0] + (1 if pert else 0)
+                for c in range(self.C):
+                    go[i, c] = inp["g"][r, c] + (1 if pert else 0)
+            return EvaluatorResult(objectives=env.arr(fo), constraints=env.arr(go))
+
+        ee = EnsembleEvaluator(cfg, None, evaluator, pm)
+        x = env.const(np.array([0.25, -0.5]))
+        res = ee.calculate(x, compute_functions=True, compute_gradients=self.mode == "both")
+        return {"fr": res[0]}
+
+    def props(self, env, inp, oc):
+        if not oc.ok:
+            return [("no_internal_exception:" + type(oc.exc).__name__, SB(False))]
+        fr = oc.value["fr"]
+        info = fr.constraint_info
+        R, C = self.R, self.C
+        w = list(inp["w"])
+        props = [("info_present", SB(info is not None))]
+        if info is None:
+            return props
+        for nm in ("nonlinear_lower", "nonlinear_upper", "nonlinear_violation"):
+            a = getattr(info, nm)
+            props.append((f"{nm}.one_entry_per_constraint", SB(a is not None and np.shape(vals(a)) == (C,))))
+            if a is None or np.shape(vals(a)) != (C,):
+                return props
+        dl, du, vi = vals(info.nonlinear_lower), vals(info.nonlinear_upper), vals(info.nonlinear_violation)
+        for c in range(C):
+            v = ssum([w[r] * inp["g"][r, c] for r in range(R)])
+            lo, hi = inp["nlo"][c], inp["nhi"][c]
+            if lo.inf == 0:
+                props.append((f"nonlinear{c}.lower_difference_of_ensemble_value", close(dl[c], v - lo)))
+            if hi.inf == 0:
+                props.append((f"nonlinear{c}.upper_difference_of_ensemble_value", close(du[c], v - hi)))
+            props.append((f"nonlinear{c}.violation_of_ensemble_value", close(vi[c], spec_violation(v, lo, hi))))
+        return props
+
+    def observe(self, env, inp, oc):
+        return {}
+
+
 def build_cases(tier):
     cases = []
     k = 0
@@ -205,9 +292,15 @@ def build_cases(tier):
     # back-transformation of linear / bound differences through the real configuration path (differential harness of C11)
     from .c11 import TransformCase
     for kw in (dict(N=2, L=1, C=0, lkinds=("both",), var_bounds="none", obj_scaler=False),
-               dict(N=2, L=1, C=1, lkinds=("upper",), nkinds=("lower",), fail=True)):
+               dict(N=2, L=1, C=1, lkinds=("upper",), nkinds=("lower",), fail=True),
+               dict(N=2, L=1, C=0, lkinds=("both",), scale_form="none", obj_scaler=False)):
         k += 1
         cases.append(TransformCase(f"c13-{k:03d}", **kw))
+    for mode in ("functions", "both"):
+        k += 1
+        cases.append(EvaluatorInfoCase(f"c13-{k:03d}", R=2, nkinds=("both", "upper"), mode=mode))
+    k += 1
+    cases.append(EvaluatorInfoCase(f"c13-{k:03d}", R=3, nkinds=("lower",), mode="both"))
     if tier == "thorough":
         for combo in itertools.product(vk, repeat=3):
             add(vkinds=combo)
